@@ -175,7 +175,44 @@ class OrderedExecutor:
         return [results[i] for i in range(len(items))]
 
 
+def generic_chain(mode, epsrel, seed):
+    """A generic (non-commuting, entangling) chain whose result depends on the truncation threshold: every
+    execution mode must give the same bond dimensions and density matrices."""
+    import oqupy
+    from harness import probes
+    r = probes.rng_for(seed, "generic-chain")
+    sx = np.array([[0, 1], [1, 0]], dtype=complex)
+    sy = np.array([[0, -1j], [1j, 0]])
+    sz = np.diag([1.0 + 0j, -1.0])
+    nsites = 4
+    chain = oqupy.SystemChain([2] * nsites)
+    for i in range(nsites):
+        chain.add_site_hamiltonian(i, (0.4 + 0.2 * r.random()) * sz + 0.3 * r.random() * sx)
+    for b in range(nsites - 1):
+        chain.add_nn_hamiltonian(b, (0.8 + 0.4 * r.random()) * sx, sx)
+        chain.add_nn_hamiltonian(b, (0.5 + 0.3 * r.random()) * sy, sy)
+        chain.add_nn_hamiltonian(b, 0.7 * sz, sz)
+    rhos = [probes.generic_rho(2, seed + i) for i in range(nsites)]
+    cfg = None if mode == "none" else {"parallel": mode}
+    t = oqupy.PtTebd(oqupy.AugmentedMPS(rhos), chain, [None] * nsites,
+                     oqupy.PtTebdParameters(dt=0.2, order=2, epsrel=epsrel), dynamics_sites=[0, (1, 2), 3],
+                     backend_config=cfg)
+    res = t.compute(3, progress_type="silent")
+    return {"bond": np.array(res["bond_dimensions"]).tolist(),
+            "dm": [[[float(z.real), float(z.imag)] for z in np.array(res["dynamics"][k].states).reshape(-1)]
+                   for k in (0, (1, 2), 3)]}
+
+
 def main():
+    if sys.argv[1] == "generic":
+        import warnings
+        warnings.simplefilter("ignore")
+        try:
+            out = generic_chain(sys.argv[2], float(sys.argv[3]), int(sys.argv[4]))
+        except Exception as ex:  # pylint: disable=broad-except
+            out = {"error": "%s: %s" % (type(ex).__name__, str(ex)[:160])}
+        print("RESULT " + json.dumps(out))
+        return
     case = json.load(open(sys.argv[1]))
     mode = sys.argv[2]
     order = sys.argv[3]
